@@ -49,14 +49,19 @@ var skelSpecs = []skelSpec{
 	{"safelog_Scrub", "common/safelog", "Scrub", `ReplaceAll|Match`},
 }
 
+func exprStrShort(fset *token.FileSet, e ast.Node) string {
+	s := exprStr(fset, e)
+	if len(s) > 90 {
+		s = s[:90] + "…"
+	}
+	return s
+}
+
 func exprStr(fset *token.FileSet, e ast.Node) string {
 	var b bytes.Buffer
 	printer.Fprint(&b, fset, e)
 	s := b.String()
 	s = strings.Join(strings.Fields(s), " ")
-	if len(s) > 90 {
-		s = s[:90] + "…"
-	}
 	return s
 }
 
@@ -104,7 +109,7 @@ func (k *skel) exprFacts(e ast.Node) []string {
 						if _, ok := a.(*ast.FuncLit); ok {
 							args = append(args, "func")
 						} else {
-							args = append(args, exprStr(k.fset, a))
+							args = append(args, exprStrShort(k.fset, a))
 						}
 					}
 					out = append(out, "call "+callee+"("+strings.Join(args, ", ")+")")
